@@ -182,3 +182,5 @@ pub mod c21;
 pub mod c15;
 pub mod c19;
 pub mod bundle;
+pub mod c34;
+pub mod c34tx;
